@@ -125,8 +125,9 @@ def run(chk, scratch):
             rd.file_idx = i % 2
         # a group that is absent from the chromosome processed first (the longest one)
         longest = max(w.chrom_order, key=w.chrom_len)
+        moved = {rd.name for rd in w.reads if rd.chrom == longest and dict(rd.tags).get("RG") == "g0"}
         for rd in w.reads:
-            if rd.chrom == longest and dict(rd.tags).get("RG") == "g0":
+            if rd.name in moved:       # all records of a read keep one group
                 rd.tags = [("RG", "g1")]
         pipeline.write_world(w, d)
         out = os.path.join(d, "out")
